@@ -97,12 +97,22 @@ fn main() {
     spec::exp::self_check();
     let bound: i64 = tier.pick(120, 1000);
     run.bound("max_abs_x", bound);
+    run.bound("quick_tier_extra_large_arguments", "+-{150,250,400,471,472,480,500,700,999,1000}, 999.99, -777.7");
     run.rule("every argument of the grid (all integers in [-B,B]; mantissa x scale grid, both signs, |x| <= B; k*ln10 +- 1e-30; zeros with scales) through exp(), compared with an outward-rounded interval enclosure of e^x (width < 1/1000 unit, asserted): positive, within one unit of the P-th significant digit; consecutive arguments in sorted order checked for monotonicity up to 2 units; non-trivial = non-zero argument (a series must be summed); arguments distinct by construction (deduplicated)");
     run.assume("the enclosure model is validated at start-up against 110 published digits of e and e*e^-1 = 1");
 
     let mut args: Vec<Dec> = vec![];
     for i in -bound..=bound {
         args.push(Dec::new(i, 0));
+    }
+    // a handful of large-magnitude arguments also in the quick tier (series needing thousands of terms)
+    if !tier.is_thorough() {
+        for i in [150i64, 250, 400, 471, 472, 480, 500, 700, 999, 1000] {
+            args.push(Dec::new(i, 0));
+            args.push(Dec::new(-i, 0));
+        }
+        args.push(Dec::new(99999, 2));
+        args.push(Dec::new(-7777, 1));
     }
     let mut mants: Vec<BigInt> = [1i64, 2, 5, 9, 15, 25, 69315, 230259, 314159, 99999].iter().map(|m| BigInt::from(*m)).collect();
     mants.push(big(&filler_digits(run.seed(), 40, 40)));
